@@ -294,6 +294,8 @@ def is_false(t):
 
 
 def to_real(n):
+    if isinstance(n, OptV):
+        n = n.val
     if n.kind == "real":
         return n.t
     if n.kind == "int":
@@ -304,6 +306,8 @@ def to_real(n):
 
 
 def to_int(n):
+    if isinstance(n, OptV):
+        n = n.val
     if n.kind == "int":
         return n.t
     if n.kind == "bool":
@@ -386,3 +390,18 @@ def named_array(elem_real):
         ax = z3.ForAll([k], A[k] == z3.substitute(body, (_KCANON, k)), patterns=[A[k]])
         _NAMED[key] = (A, ax)
     return _NAMED[key]
+
+
+MINF = z3.Function("MINF", ARR, z3.IntSort(), z3.RealSort())
+MAXF = z3.Function("MAXF", ARR, z3.IntSort(), z3.RealSort())
+ARGMIN = z3.Function("ARGMIN", ARR, z3.IntSort(), z3.IntSort())
+ARGMAX = z3.Function("ARGMAX", ARR, z3.IntSort(), z3.IntSort())
+
+
+def extreme_axioms(A, n, is_min):
+    """min/max of A[0:n) for n >= 1: a bound for every element and attained at ARGMIN/ARGMAX"""
+    i = z3.Int(fresh_name("i"))
+    F, G = (MINF, ARGMIN) if is_min else (MAXF, ARGMAX)
+    m, w = F(A, n), G(A, n)
+    return [z3.Implies(n >= 1, z3.And(w >= 0, w < n, A[w] == m)),
+            z3.ForAll([i], z3.Implies(z3.And(i >= 0, i < n), m <= A[i] if is_min else m >= A[i]), patterns=[A[i]])]
